@@ -38,13 +38,15 @@ def cases(rng, tier):
             p = {"lens": lens, "f": f, "dtype": rng.choice(gens.DTYPES), "vseed": rng.randint(0, 9999), "mode": rng.choice(["small", "small", "big", "rare", "cancel"]),
                  "derived": rng.choice(gens.DERIVATIONS)}
             if f == "column":
-                p["j"] = rng.randint(0, max(lens))
+                # (a column number beyond every row -- also beyond the 32-bit range -- selects nothing)
+                p["j"] = rng.randint(0, max(lens)) if rng.random() < 0.9 else rng.choice([2 ** 31 - 1, 2 ** 31, 2 ** 31 + 5, 2 ** 40, 2 ** 62])
+                p["jform"] = rng.choice(gens.INT_FORMS)      # the column number as a Python int or a numpy integer scalar
             out.append(p)
     return out
 
 
 def key(p):
-    return engine.stable_hash([p["lens"], p["f"], p["dtype"], p.get("j"), p["mode"], p.get("derived")])
+    return engine.stable_hash([p["lens"], p["f"], p["dtype"], p.get("j"), p["mode"], p.get("derived"), p.get("jform")])
 
 
 def nontrivial(p):
@@ -103,13 +105,22 @@ def run_impl(p):
         from npstructures import RaggedArray
         vals, _ = _rows(p)
         ra = gens.derive_ra(RaggedArray(vals.copy(), list(p["lens"])), p.get("derived"))
-        first = _call(p, ra)
+        raw = _call(p, ra)
+        first = _cn(p, raw)
+        # the caller owns the result: writing into it must not change what the next call reports (no shared cache)
+        if isinstance(raw, np.ndarray) and raw.flags.writeable and raw.size:
+            raw[...] = np.ones(1, dtype=raw.dtype)[0] if raw.dtype.kind != "b" else ~raw
+        again = _cn(p, _call(p, ra))
         unchanged = bool([int(l) for l in ra.lengths] == list(p["lens"]) and np.array_equal(np.asarray(ra.ravel()).view(np.uint8), vals.view(np.uint8))
                          and [len(r) for r in ra.tolist()] == list(p["lens"]))
         _write(p, ra)
-        second = _call(p, ra)
-        return {"k": "obs", "value": canon(first), "operand_unchanged": canon(unchanged), "after_write": canon(second)}
+        second = _cn(p, _call(p, ra))
+        return {"k": "obs", "value": first, "again_after_writing_into_result": again, "operand_unchanged": canon(unchanged), "after_write": canon(second)}
     return guarded(h)
+
+
+def _cn(p, x):
+    return canon([int(v) for v in x]) if p["f"] == "counts" else canon(x)
 
 
 def _call(p, ra):
@@ -123,8 +134,8 @@ def _call(p, ra):
         if f == "mean":
             return ra.mean(axis=0)
         if f == "counts":
-            return [int(x) for x in ra.col_counts()]
-        return ra.get_column_values(p["j"])
+            return ra.col_counts()
+        return ra.get_column_values(gens.int_form(p["j"], p.get("jform")))
 
 
 def _write(p, obj):
@@ -154,7 +165,7 @@ def oracle(p):
     rows = [r.copy() for r in rows]
     first = _oracle_value(p, rows)
     _write(p, rows)
-    return {"k": "obs", "value": first, "operand_unchanged": canon(True), "after_write": _oracle_value(p, rows)}
+    return {"k": "obs", "value": first, "again_after_writing_into_result": first, "operand_unchanged": canon(True), "after_write": _oracle_value(p, rows)}
 
 
 def _oracle_value(p, rows):
